@@ -74,6 +74,18 @@ def enum_clauses():
                         opneg = pol == 1 and op in ("==", "in")
                         neg = pol == 2 or (pol == 1 and not opneg)
                         yield qn, gen.clause(q, op, ["lit", lit], neg=neg, opneg=opneg, some=some), ("binary", op, ln)
+                for rn, rq in RQ.items():
+                    for pol in (0, 1, 2):
+                        opneg = pol == 1 and op in ("==", "in")
+                        neg = pol == 2 or (pol == 1 and not opneg)
+                        yield qn, gen.clause(q, op, ["query", rq], neg=neg, opneg=opneg, some=some), ("binary", op, rn)
+
+
+# queries on the right-hand side that select nothing (the clause must SKIP whatever stands on the left) or something (not decided here)
+RQ = {"q:lm[x==99].x": K("lm") + [["filter", [[gen.clause(K("x"), "==", ["lit", 99])]]]] + K("x"),
+      "q:lm[x==99]": K("lm") + [["filter", [[gen.clause(K("x"), "==", ["lit", 99])]]]],
+      "q:m[keys=='zz']": K("m") + [["keysfilter", "==", ["lit", "zz"]]],
+      "q:i": K("i")}
 
 
 def judge_file(ctx, f, doc, docs, label, shape=None):
